@@ -1341,6 +1341,12 @@ func equal(a, b Object) (bool, error) {
 	if aIsDict && bIsDict {
 		return isSameDict(a.(Dict), b.(Dict)), nil
 	}
+	if ai, ok := a.(Integer); ok {
+		if bi, ok := b.(Integer); ok {
+			// compare integers exactly (float64 cannot tell large integers apart)
+			return ai == bi, nil
+		}
+	}
 
 	normalize := func(obj Object) (Object, error) {
 		switch obj := obj.(type) {
